@@ -262,3 +262,37 @@ func VH_C05_Composite() {
 	srv.conn.Close()
 	s.stop()
 }
+
+// VH_C12_MailboxClose: Close of the mailbox connections (which is the GBN
+// Close underneath) while the relay's streams stall: writes of the closing
+// party block inside the transport, as a gRPC stream does when nobody drains
+// it. Close must still return within a bounded time, from either side.
+func VH_C12_MailboxClose() {
+	s := vNewSession(0, vBytes("auth", 3))
+	srv, cli := s.connect()
+	vAssert(srv.err == nil && cli.err == nil, "connection through a fault-free relay could not be established")
+	if srv.err != nil || cli.err != nil {
+		return
+	}
+	s.relay.mu.Lock()
+	s.relay.stalled = true
+	s.relay.mu.Unlock()
+	c := srv.conn
+	if vBool("client_closes") {
+		c = cli.conn
+	}
+	if vBool("write_pending") {
+		// a write that gets stuck in the stalled transport
+		go func() { c.Write([]byte{1}) }()
+		time.Sleep(time.Duration(vIntRange("wait_ms", 0, 2)) * 700 * time.Millisecond)
+	}
+	done := make(chan struct{})
+	go func() { c.Close(); close(done) }()
+	select {
+	case <-done:
+		vReach("mailbox-closed")
+	case <-time.After(60 * time.Second):
+		vAssert(false, "Close of the mailbox connection did not return within a minute while the relay streams stall")
+	}
+	s.stop()
+}
